@@ -2,30 +2,40 @@
    Spec.v = the immutable list model (each object = its remaining sequence);
    Model.v = the iterator objects the code builds, with shared tee buffers. *)
 From Coq Require Import List Bool ZArith String.
-From AL Require Import C03.Spec C03.Model C03.Proofs_Refine C03.Proofs_Spec C03.Proofs_Periodic.
+From AL Require Import C03.Spec C03.Model C03.Proofs_Refine C03.Proofs_Total C03.Proofs_RefineL C03.Proofs_Spec C03.Proofs_Periodic.
 Import ListNotations.
 Open Scope Z_scope.
 
-(* PARTIAL refinement: for every history of any length (next take peek skip
-   limit copy append map filter thub use tee, any counts) from any pool of
-   FINITE streams, every observable of the implementation-level model (returned
-   container / item / StopIteration / IndexError / AttributeError / ids of new
-   objects) equals the list model's, provided no call ran out of fuel.
-   Missing for the full statement: periodic sources (Stream(a, b, ..), repeat)
-   inside the theorem - they are in both models and in the differential check,
-   but the heap abstraction is proved for finite sequences only - and a proof
-   that enough fuel always exists (the Example below exhibits it on a case). *)
-Theorem C03_refines_list_model_partial : forall fuel ps ops,
-  Forall fin_pool ps -> Forall fin_op ops ->
+(* REFINEMENT.  For every pool of finite and periodic streams (Stream(list),
+   Stream(a, b, ..), Stream(a)) and every history of any length (next take peek
+   skip limit copy append (of a list, of periodic values, of an existing Stream
+   or hub) map filter thub Stream(hub) tee, any counts): whenever the
+   implementation-level model (iterator objects, shared tee buffers) finishes
+   every call within its fuel, every observable - returned container / item /
+   StopIteration / IndexError / AttributeError / ids of new objects - equals the
+   list model's.  (Calls that do not terminate in Python - take(inf) of an
+   endless stream, a filter rejecting a whole period - are exactly what the fuel
+   hypothesis leaves out.)  Proof: forward simulation; abs = remaining sequence
+   as a lasso, up to unrolling whole periods into the prefix. *)
+Theorem C03_refines_list_model : forall fuel ps ops,
   ~ In ODiverge (irun fuel (init ps) ops) ->
   irun fuel (init ps) ops = run (map (fun p => EStream (pool_seq p)) ps) ops.
-Proof. exact refines_list_model_finite. Qed.
-Print Assumptions C03_refines_list_model_partial.
+Proof. exact refines_list_model. Qed.
+Print Assumptions C03_refines_list_model.
+
+(* Over FINITE sources no fuel hypothesis is needed: iterators always halt, so
+   from some amount of fuel on the two runs coincide. *)
+Theorem C03_refines_list_model_finite_total : forall ps ops,
+  Forall fin_pool ps -> Forall fin_op ops ->
+  exists f0, forall fuel, (f0 <= fuel)%nat ->
+    irun fuel (init ps) ops = run (map (fun p => EStream (pool_seq p)) ps) ops.
+Proof. exact refines_list_model_finite_total. Qed.
+Print Assumptions C03_refines_list_model_finite_total.
 
 (* copies / tee outputs / hub uses are independent: operations on OTHER objects
    never change what an object will yield, in any interleaving *)
 Theorem C03_copies_independent : forall ops st j e,
-  nth_error st j = Some e -> Forall (fun o => target o <> Some j) ops ->
+  nth_error st j = Some e -> Forall (fun o => target o <> Some j /\ arg o <> Some j) ops ->
   nth_error (final st ops) j = Some e.
 Proof. exact copies_independent. Qed.
 Print Assumptions C03_copies_independent.
@@ -35,7 +45,7 @@ Theorem C03_copy_same_sequence : forall st i s, nth_error st i = Some (EStream s
 Proof. exact copy_same_sequence. Qed.
 Print Assumptions C03_copy_same_sequence.
 
-Theorem C03_step_local : forall st1 st2 o i, target o = Some i ->
+Theorem C03_step_local : forall st1 st2 o i, target o = Some i -> arg o = None ->
   nth_error st1 i = nth_error st2 i -> List.length st1 = List.length st2 ->
   snd (step st1 o) = snd (step st2 o).
 Proof. exact step_local. Qed.
@@ -104,6 +114,17 @@ Theorem C03_hub_peek_copy_consume_no_use : forall st h s u c, nth_error st h = S
 Proof. exact hub_peek_copy_consume_no_use. Qed.
 Print Assumptions C03_hub_peek_copy_consume_no_use.
 
+(* s.append(hub) is one of the hub's n uses, taken AT THE TIME of the append *)
+Theorem C03_append_hub_charges_use : forall st i j si s u, i <> j ->
+  nth_error st i = Some (EStream si) -> nth_error st j = Some (EHub s u) ->
+  step st (OAppendObj i j) =
+  match u with
+  | S u' => (set_nth i (EStream (lappend si s)) (set_nth j (EHub s u') st), OSelf)
+  | O => (st, ORaise "IndexError")
+  end.
+Proof. exact append_hub_charges_use. Qed.
+Print Assumptions C03_append_hub_charges_use.
+
 Theorem C03_thub_noniterable_is_identity : forall st z n, step st (OThubVal z n) = (st, OItem z).
 Proof. exact thub_noniterable_is_identity. Qed.
 Print Assumptions C03_thub_noniterable_is_identity.
@@ -134,9 +155,27 @@ Example C03_example_spec :
 Proof. vm_compute. reflexivity. Qed.
 Print Assumptions C03_example_spec.
 Example C03_example_periodic :
-  take_seq (CInt 5) (pool_seq (PCyc [1; 2])) = (OItems [1; 2; 1; 2; 1], LS [] [2; 1] false).
+  take_seq (CInt 5) (pool_seq (PCyc [1; 2])) = (OItems [1; 2; 1; 2; 1], LS [2] [1; 2] false).
 Proof. vm_compute. reflexivity. Qed.
 Print Assumptions C03_example_periodic.
+(* periodic source, copies consumed in interleaving across the period boundary, filter, hub *)
+Definition C03_example_cyc_ops : list op :=
+  [OCopy 0; OTake 0 (CInt 3); OTee 1 2; OTake 2 (CInt 5); OFilter 3 PEven; OTake 3 (CInt 2);
+   OTake 0 (CInt 2); OAppend 2 (PFin [9]); OLimit 2 (CInt 3); OTake 2 CInf; OThub 0 1; OPeek 4 (CInt 3);
+   OAppendObj 3 4; OUse 4; OTake 3 (CInt 1)].
+Definition C03_example_cyc_obs : list obs :=
+  [ONew 1; OItems [1; 2; 3]; ONews 2 2; OItems [1; 2; 3; 1; 2]; OSelf; OItems [2; 2];
+   OItems [1; 2]; OSelf; OSelf; OItems [3; 1; 2]; ONew 4; OItems [3; 1; 2];
+   OSelf; ORaise "IndexError"; OItems [2]].
+Example C03_example_cyc :
+  irun 60 (init [PCyc [1; 2; 3]]) C03_example_cyc_ops = C03_example_cyc_obs /\
+  ~ In ODiverge (irun 60 (init [PCyc [1; 2; 3]]) C03_example_cyc_ops).
+Proof.
+  assert (E : irun 60 (init [PCyc [1; 2; 3]]) C03_example_cyc_ops = C03_example_cyc_obs)
+    by (vm_compute; reflexivity).
+  split; [exact E|]. rewrite E. cbn. intuition discriminate.
+Qed.
+Print Assumptions C03_example_cyc.
 Example C03_example_hypotheses :
   Forall fin_pool C03_example_pool /\ Forall fin_op C03_example_ops /\
   ~ In ODiverge (irun 50 (init C03_example_pool) C03_example_ops).
